@@ -1,5 +1,6 @@
 import FeedVerif.Model.DictDriver
 import FeedVerif.Model.UriDriver
+import FeedVerif.Model.OptionsDriver
 /-!
 Model driver: one operation per input line `<model> <op> <fields…>`, one canonical output line per
 operation.  Run with `lake env lean --run Main.lean`.
@@ -13,6 +14,7 @@ def stepLine (st : DState) (line : String) : DState × String :=
   match (line.trimAscii.toString.splitOn " ").filter (· ≠ "") with
   | "dict" :: rest => let (s, o) := Dict.driverStep st.dict rest; ({ st with dict := s }, o)
   | "uri" :: rest => (st, Uri.driverStep rest)
+  | "opts" :: rest => (st, Options.driverStep rest)
   | _ => (st, "bad-model")
 
 partial def loop (h : IO.FS.Stream) (out : IO.FS.Stream) (st : DState) : IO Unit := do
